@@ -987,6 +987,7 @@ func main() {
 			{Name: "writer-faults", Body: writerFaultSection, Bound: -1},
 			{Name: "reader-faults", Body: readerFaultSection, Bound: -1},
 			{Name: "template-size-segments", Body: largeSegmentSection, Bound: -1},
+			{Name: "many-segments", Body: manySegmentsSection, Bound: -1},
 			{Name: "noncebased-custom", Body: nonceBasedSection, Bound: -1},
 			{Name: "interleaved-streams", Body: interleavedSection, Bound: -1},
 		})
